@@ -149,7 +149,7 @@ def classify(res):
             else: bad.append(p)
     res['witness'] = {'reachable': wit_ok, 'unreachable': wit_bad}
     if unwind_bad:
-        return 'inconclusive', 'bound exceeded / unmodelled: ' + '; '.join(sorted({p.get('description', '') for p in unwind_bad}))[:800], None
+        return 'inconclusive', 'bound exceeded / unmodelled: ' + '; '.join(sorted({p.get('description', '') + (' [%s]' % p.get('property') if 'unwinding' in p.get('description', '') else '') for p in unwind_bad}))[:800], None
     if not wit_ok and not bad:
         return 'broken', 'vacuous harness: no witness reachable: ' + '; '.join(wit_bad), None
     if bad:
